@@ -108,6 +108,20 @@ func c18(r *core.Run) {
 		var testedAt ssa.Instruction
 		mk := func(unit *ssa.Function) core.GuardMatch {
 			return callBoolGuard(p, func(call *ssa.Call, callees []*ssa.Function) bool {
+				if len(callees) == 0 {
+					// the block test written out in place: Has on the block key (recipient, signer)
+					for _, o := range p.StoreOps(unit) {
+						if o.Instr != ssa.Instruction(call) || o.Kind != "Has" || o.Module+"/"+o.Prefix != ntfPrefix {
+							continue
+						}
+						comps := p.KeyComponents(o.Key, o.Instr)
+						if len(comps) == 2 && p.OnlyMsgField(p.ProvAt(comps[1].Val, "", comps[1].At), h, "Creator") {
+							tested, testedAt = comps[0].Val, call
+							return true
+						}
+					}
+					return false
+				}
 				if len(callees) != 1 || !blockPredicate(p, callees[0]) {
 					return false
 				}
@@ -130,10 +144,18 @@ func c18(r *core.Run) {
 				continue
 			}
 			rec := args[0]
-			to := p.ProvAt(rec, ".To", call)
+			to := p.ResolveToEntry(p.ProvAt(rec, ".To", call), h.Fn)
 			if tested != nil {
-				tp := p.ProvAt(tested, "", testedAt)
-				r.Check(strings.Join(to.Strings(), "|") == strings.Join(tp.Strings(), "|") && p.HasMsgField(to, h, "To"), "C18/R2", h.Key()+":to-is-tested-recipient", p.InstrPos(call), "To = resolved recipient tested against the block list", "the stored recipient differs from the address tested against the block list: "+to.String()+" vs "+tp.String())
+				tp := p.ResolveToEntry(p.ProvAt(tested, "", testedAt), h.Fn) // the test may sit in a helper
+				dataKey := func(pr core.Prov) string {
+					var ks []string
+					for _, a := range pr.DataAtoms() {
+						ks = append(ks, a.Key())
+					}
+					sort.Strings(ks)
+					return strings.Join(ks, "|")
+				}
+				r.Check(dataKey(to) == dataKey(tp) && p.HasMsgField(to, h, "To"), "C18/R2", h.Key()+":to-is-tested-recipient", p.InstrPos(call), "To = resolved recipient tested against the block list", "the stored recipient differs from the address tested against the block list: "+to.String()+" vs "+tp.String())
 			}
 			r.Check(p.OnlyMsgField(p.ProvAt(rec, ".From", call), h, "Creator"), "C18/R2", h.Key()+":from-is-signer", p.InstrPos(call), "From ⊵ signer only", "stored sender is not the signer: "+p.ProvAt(rec, ".From", call).String())
 			tm := p.ProvAt(rec, ".Time", call)
